@@ -7,6 +7,7 @@ import Frp.Lemmas.CodecPool
 import Frp.Gen.CodecFacts
 import Frp.Model.ConnReader
 import Frp.Props.C02Faults
+import Frp.Props.C02Routes
 /-
   C02 — HTTP proxying preserves requests and responses apart from declared rewrites.   (partial)
 
@@ -49,6 +50,8 @@ import Frp.Props.C02Faults
       (`codec_release_at_return_witness`, `codec_double_release_witness`, `codec_unsafe_breaks`); predicate
       `roundHolds` = every user of a round of simultaneous exchanges gets exactly its own answer.
 
+    * grouping is transparent to every route option; the error answer does not wait for the request body:
+      Frp/Props/C02Routes.lean (same namespace)
     * faults in the middle of an exchange and long-lived concurrent exchanges: Frp/Props/C02Faults.lean (same
       namespace; Frp/Model/HttpAbort.lean, Frp/Model/ConnLimit.lean, Gen/HttpFacts): `abort_chain_faithful`,
       `upload_chain_faithful`, `abort_source_no_recover`, `limit_unlimited_forwards_all`,
